@@ -602,3 +602,86 @@ Proof.
   apply (source_call_rel n id_ren s s name args args (rel_st_id s W I) (rel_vals_id s args W I B)).
 Qed.
 End SourceRel.
+
+(* ------------------------------------------------------------------ P = rules ++ the facts, concretely *)
+
+Definition spec_len (e : pyspec) : Prop := Forall (fun row : list sterm => length row = snd (fst e)) (fst (snd e)).
+Definition spec_ok_src (e : pyspec) : Prop :=
+  fst (snd e) <> [] /\ Forall (fun row => noalias row /\ length row = snd (fst e)) (fst (snd e)).
+
+Lemma spec_ok_src_len e : spec_ok_src e -> spec_len e.
+Proof. intros [_ F]. eapply Forall_impl; [|exact F]. intros row [_ L]. exact L. Qed.
+
+Lemma clauses_for_py_len specs : Forall spec_len specs -> NoDup (map fst specs) -> forall name k,
+  clauses_for (py_clauses specs) name k =
+  match lookup_fix specs name k with Some x => map (fact_clause name) (fst x) | None => [] end.
+Proof.
+  induction specs as [|[[n0 k0] x] r IH]; intros Ok ND name k; [reflexivity|].
+  inversion Ok as [|? ? Oe Or]; subst. inversion ND as [|? ? NI NDr]; subst.
+  cbn [py_clauses flat_map fst snd lookup_fix]. fold (py_clauses r). rewrite clauses_for_app.
+  pose proof Oe as Len. unfold spec_len in Len. cbn [fst snd] in Len.
+  destruct (key_eq (n0, k0) (name, k)) eqn:K.
+  - apply key_eq_true in K. injection K as -> ->.
+    rewrite (clauses_for_facts_same name (fst x) k Len), (IH Or NDr name k).
+    destruct (lookup_fix r name k) as [y|] eqn:Lk; [|apply app_nil_r].
+    exfalso. apply NI. clear -Lk. induction r as [|[[n1 k1] z] r IH]; [discriminate|]. cbn [lookup_fix] in Lk. cbn [map fst].
+    destruct (key_eq (n1, k1) (name, k)) eqn:K; [left; apply key_eq_true in K; exact K | right; apply IH; exact Lk].
+  - rewrite (clauses_for_facts_other n0 k0 (fst x) name k Len K). apply IH; assumption.
+Qed.
+
+Lemma split_src rules specs : Forall spec_ok_src specs -> NoDup (map fst specs) ->
+  (forall c, In c rules -> lookup_fix specs (c_name c) (length (c_args c)) = None) ->
+  forall name k,
+  match lookup_fix specs name k with
+  | Some (rows, vals) => rows <> [] /\ Forall (fun row => noalias row /\ length row = k) rows /\
+                         clauses_for (rules ++ py_clauses specs) name k = map (fact_clause name) rows
+  | None => clauses_for (rules ++ py_clauses specs) name k = clauses_for rules name k
+  end.
+Proof.
+  intros Ok ND Dis name k.
+  assert (OkL: Forall spec_len specs) by (eapply Forall_impl; [|exact Ok]; apply spec_ok_src_len).
+  rewrite clauses_for_app, (clauses_for_py_len specs OkL ND name k).
+  destruct (lookup_fix specs name k) as [[rows vals]|] eqn:Lk.
+  - assert (In ((name, k), (rows, vals)) specs) as Hin.
+    { clear -Lk. induction specs as [|[[n1 k1] z] r IH]; [discriminate|]. cbn [lookup_fix] in Lk.
+      destruct (key_eq (n1, k1) (name, k)) eqn:K.
+      - apply key_eq_true in K. injection K as -> ->. injection Lk as ->. left; reflexivity.
+      - right. apply IH. exact Lk. }
+    pose proof (proj1 (Forall_forall _ _) Ok _ Hin) as [NE F]. cbn [fst snd] in NE, F.
+    split; [exact NE|]. split; [exact F|].
+    assert (clauses_for rules name k = []) as ->; [|reflexivity].
+    apply clauses_for_none. intros c Hc. destruct (key_eqb (clause_key c) (name, k)) eqn:K; [|reflexivity].
+    exfalso. rewrite key_eqb_key_eq in K. apply key_eq_true in K. unfold clause_key in K. injection K as E1 E2.
+    pose proof (Dis c Hc) as D. rewrite E1, E2, Lk in D. discriminate.
+  - apply app_nil_r.
+Qed.
+
+(* rules compiled alone + Python predicates over rows with variables (no aliased head argument) vs the compiled program
+   rules ++ facts: related answers for related calls, at every depth, next to any (closed) dynamic facts *)
+Theorem program_with_python_predicates_rel rules specs dynl ir irf :
+  compile_program rules = Some ir -> compile_program (rules ++ py_clauses specs) = Some irf ->
+  good_program rules -> Forall spec_ok_src specs -> NoDup (map fst specs) -> dyn_ok dynl ->
+  (forall c, In c rules -> lookup_fix specs (c_name c) (length (c_args c)) = None) ->
+  forall n, call_rel (nquery n (mk_world ir (py_table_src specs) [] dynl)) (nquery n (mk_world irf [] [] dynl)).
+Proof.
+  intros Hr HP Gr Ok ND Hd Dis.
+  apply (source_call_rel rules (rules ++ py_clauses specs) ir irf specs dynl Hr HP Gr).
+  - apply Forall_app. split; [exact Gr | apply py_clauses_good].
+  - exact Hd.
+  - apply split_src; assumption.
+Qed.
+
+Theorem program_with_python_predicates_renaming rules specs dynl ir irf :
+  compile_program rules = Some ir -> compile_program (rules ++ py_clauses specs) = Some irf ->
+  good_program rules -> Forall spec_ok_src specs -> NoDup (map fst specs) -> dyn_ok dynl ->
+  (forall c, In c rules -> lookup_fix specs (c_name c) (length (c_args c)) = None) ->
+  forall n name args s, wf (sto s) -> inv s -> Forall (bounded (nxt s)) args ->
+    Forall2 (same_answer s) (fst (nquery n (mk_world ir (py_table_src specs) [] dynl) name args s))
+                            (fst (nquery n (mk_world irf [] [] dynl) name args s)) /\
+    snd (nquery n (mk_world ir (py_table_src specs) [] dynl) name args s) =
+    snd (nquery n (mk_world irf [] [] dynl) name args s).
+Proof.
+  intros Hr HP Gr Ok ND Hd Dis n name args s W I B. apply res_rel_same_answer. unfold res_rel.
+  apply (program_with_python_predicates_rel rules specs dynl ir irf Hr HP Gr Ok ND Hd Dis n id_ren s s name args args
+           (rel_st_id s W I) (rel_vals_id s args W I B)).
+Qed.
